@@ -2,12 +2,19 @@
 PROP = dict(
     level='exploration',
     level_text='Generated differential testing of every pstm_* operation against GMP over operand sizes/values/aliasing chosen to reach each size-specialised code path; finds wrong results with high probability where they depend on operand shape, proves nothing about unexplored operands.',
-    level_note='Trusted: GMP, the harness conversion via byte strings. Functions are exercised inside the operand domain their in-tree callers use (documented per operation in props/C13).',
-    technique='property-based differential testing vs GMP (tape generators + shrinking)',
-    rule='cases = (operation, operand digit counts, structured value classes, aliasing pattern) drawn from the tape; '
-         'oracle = GMP on the same byte strings + algebraic identities; non-trivial = operands of >= 2 digits with an edge-class '
-         'value or aliasing; distinct = distinct (op, digit-count pair, value classes, alias pattern)',
-    assumptions=['GMP 6.2 is correct', 'functions are called inside the domain their in-tree callers use'],
+    level_note='Trusted: GMP, the harness conversion of digit arrays. Functions are exercised inside the operand domain their documentation and in-tree callers define (listed per operation in props/C13/bignum.cc): results <= PSTM_MAX_SIZE-2 digits; sub_s |a|>=|b|; sqr/montgomery/exptmod non-negative; Montgomery modulus odd; exptmod P odd with 512..4096 bits in the supported steps and 0<X<P; invmod must succeed only for 0<a<b, gcd 1, bits(a)+bits(b)<=4096; the remainder output of pstm_div_2d (never requested in-tree) only with a separate quotient and shift < 64.',
+    technique='property-based differential testing vs GMP (tape generators + shrinking) plus GMP-free algebraic identities and the pstm_int structural invariant after every call',
+    rule='case = (operation, operand digit counts, value classes, signs, aliasing pattern, output-variable state, scratch-buffer mode) drawn from the tape. '
+         'Operations: add sub sub_s add_d sub_d mul_comba sqr_comba mul_d mul_2 div div_2 div_2d mod mulmod exptmod invmod lshd rshd 2expt cmp cmp_mag cmp_d '
+         'montgomery_setup/calc_normalization/reduce read_unsigned_bin to_unsigned_bin(_nr,_alloc) unsigned_bin_size count_bits read_asn read_radix copy abs init_copy set zero exch grow clamp. '
+         'Digit counts: 12/16 of the binary cases draw a uniform pair from [0,34]^2 (counters pair:m:n), the rest 35..70 and up to 190 digits. '
+         'Value classes: random, 2^k, 2^k-1, 2^k+1, all-ones, alternating 0/~0 digits (both phases), sparse special digits, top-digit-only, top digit 1, equal to / differing only in top / bottom digit from the other operand; '
+         'moduli odd/even/one digit/2^k-1/curve primes and orders/512-2048-bit primes/RSA moduli. '
+         'Oracle: GMP on the same digit arrays (value and sign), error return accepted only outside the documented domain; second net: (a+b)-b=a, a*b=b*a, sqr=mul, mul_2=a+a, q*b+r=a and |r|<|b|, '
+         'mulmod=mod(mul), a*a^-1=1, g^(x1+x2)=g^x1*g^x2, redc(xR*y)=x*y, lshd/rshd round trip; every result is afterwards used as in/out operand of an aliased add with a longer addend (stale digits above used). '
+         'Invariant after every call: used<=alloc<=PSTM_MAX_SIZE, top digit non-zero, zero is non-negative, inputs not modified. '
+         'non-trivial = all operands >= 2 digits and (a structured value class or aliasing or an edge digit/shift operand); distinct = distinct (op, digit-count buckets, value classes, alias pattern, signs)',
+    assumptions=['GMP 6.x is correct', 'functions are called inside the domain their documentation and in-tree callers define (see level_note)'],
     targets=[dict(name='c13_bignum', src=['props/C13/bignum.cc'], libs=['-lgmp'],
-                  quick=dict(cases=400000, secs=60), thorough=dict(cases=40000000, secs=900))],
+                  quick=dict(cases=500000, secs=60), thorough=dict(cases=30000000, secs=840, grace=120))],
 )
